@@ -98,6 +98,32 @@ func TestVerifC06(t *testing.T) {
 					}
 				}
 				r.EvalN(fmt.Sprintf("%s|long-lived-aead|nonce=%d,tag=%d", pn, nl, tag), hk.N(150, 1500))
+				// a nonce whose length is NOT the AEAD's NonceSize (shorter or longer, cut from a buffer with spare capacity):
+				// the standard library's generic mode over a portable cipher refuses the call (it panics); the outcome must
+				// not depend on the path, so this path must refuse it too - not seal under a truncated or extended nonce
+				if std, err := newAEADFromBlock(ref.NewSM4Block(key), nl, tag); err == nil {
+					buf := rng.Bytes(nl + 40)
+					pt := rng.Bytes(21)
+					for _, wl := range []int{nl - 1, nl + 1, nl + 4, nl / 2, nl + 16} {
+						if wl < 0 || wl == nl {
+							continue
+						}
+						var out []byte
+						stdRefuses, _, _, _ := hk.Try(func() { std.Seal(nil, buf[:wl], pt, nil) })
+						refuses, _, _, _ := hk.Try(func() { out = a.Seal(nil, buf[:wl], pt, nil) })
+						if stdRefuses && !refuses {
+							r.Violation(fmt.Sprintf("outcome-depends-on-path:nonce-of-wrong-length-accepted:%s", pn), hk.D{"key": hk.Hex(key), "nonce_size_of_aead": nl, "nonce_length_given": wl, "nonce_capacity": cap(buf[:wl]), "output": hk.Hex(out),
+								"standard_library_generic_mode": "panics"})
+						}
+						stdRefuses, _, _, _ = hk.Try(func() { std.Open(nil, buf[:wl], rng.Bytes(21+tag), nil) })
+						var oerr error
+						refuses, _, _, _ = hk.Try(func() { _, oerr = a.Open(nil, buf[:wl], rng.Bytes(21+tag), nil) })
+						if stdRefuses && !refuses {
+							r.Violation(fmt.Sprintf("outcome-depends-on-path:nonce-of-wrong-length-accepted-by-open:%s", pn), hk.D{"key": hk.Hex(key), "nonce_size_of_aead": nl, "nonce_length_given": wl, "error": fmt.Sprint(oerr), "standard_library_generic_mode": "panics"})
+						}
+						r.Eval(fmt.Sprintf("%s|nonce-of-wrong-length|nonce=%d,given=%+d", pn, nl, wl-nl))
+					}
+				}
 			}
 		})
 	}
